@@ -418,6 +418,7 @@ inline model::MRep repetition(Ctx& c, bool for_ref) {
         case 2: {
             rep.type = model::REP_EXPLICIT;
             int n = (int)r.range(1, 6);
+            if (for_ref && !c.cfg.compact && r.chance(0.004)) n = r.chance(0.5) ? 20000 : 40000;  // counts beyond 15 and 16 bits
             // OASIS stores an explicit repetition as rounded values of its own (no sum with the element's
             // position is ever rounded), so off-grid offsets are well defined there: each one rounded
             bool off = c.cfg.mode == canon::OAS && c.offgrid && r.chance(0.5);
@@ -667,6 +668,18 @@ inline model::MPath path(Ctx& c) {
         p.spine = r.chance(0.5) ? std::vector<Pt>{a, Pt{a.x + len, a.y}} : std::vector<Pt>{a, Pt{a.x, a.y - len}};
         p.nelem = (int)r.range(2, 3);
         p.sep = 2 * ongrid(c, 1, 40);
+        if (r.chance(0.35)) {
+            // an L with circular bends: the outer element gets a longer arc (more vertices) than the inner one;
+            // the expected centre lines are the writer's own (element_center), as for RobustPaths
+            // radii in even numbers of grid steps: an arc sample at 60 degrees sits at radius / 2 from the
+            // centre, and half a grid step would be a rounding tie
+            p.bend = 20 * r.range(5, 20);
+            p.sep = 40 * r.range(1, 10);
+            dg_t leg = p.bend + p.sep * p.nelem + ongrid(c, 20, 200);
+            a = Pt{canon::rgrid(a.x) * 10, canon::rgrid(a.y) * 10};
+            dg_t sx = r.chance(0.5) ? 1 : -1, sy = r.chance(0.5) ? 1 : -1;
+            p.spine = {a, Pt{a.x + sx * leg, a.y}, Pt{a.x + sx * leg, a.y + sy * leg}};
+        }
         return p;
     }
     if (c.cfg.robust_paths && manhattan && r.chance(0.4)) {
@@ -688,6 +701,8 @@ inline model::MPath path(Ctx& c) {
         // a grid step off the grid would be a rounding tie (decided by floating-point noise, not by the writer)
         p.sep = p.nelem > 1 ? 2 * p.hw + 2 * ongrid(c, 1, 15) : 0;
         p.join = (int)r.below(4);
+        if (p.impl == 0 && r.chance(0.3)) p.taper = ongrid(c, 1, 30);
+        if (p.impl == 0 && r.chance(0.3)) p.bend = ongrid(c, 10, 60);
         static const int ends[] = {END_FLUSH_, END_ROUND_, END_HALF_, END_EXT_, END_SMOOTH_};
         p.end = ends[r.below(p.impl ? 4 : 5)];
         p.eu = ongrid(c, 0, 40);
@@ -721,12 +736,13 @@ inline model::MLabel label(Ctx& c) {
     if (c.cfg.mode == canon::GDS) {
         l.anchor = anchors[r.below(9)];
         if (r.chance(0.4)) {
-            static const double rots[] = {90, 180, 270, -90, 45, 30.5, 0.001, 359.999, 123.456};
-            l.rot_deg = rots[r.below(9)];
+            static const double rots[] = {90, 180, 270, -90, 45, 30.5, 0.001, 359.999, 123.456, 256, -256, 16};
+            l.rot_deg = rots[r.below(12)];
         }
         if (r.chance(0.3)) {
-            static const double mags[] = {2, 0.5, 0.25, 1.5, 10, 0.001, 3.125};
-            l.mag = mags[r.below(7)];
+            // (powers of 16 sit on the exponent boundaries of the 8-byte real)
+            static const double mags[] = {2, 0.5, 0.25, 1.5, 10, 0.001, 3.125, 16, 256, 4096, 65536, 0.0625, 1.0 / 4096, 1.0 / 65536};
+            l.mag = mags[r.below(14)];
         }
         l.xrefl = r.chance(0.2);
     } else {
@@ -744,12 +760,12 @@ inline model::MRef reference(Ctx& c, const std::string& target, bool by_name) {
     m.how = by_name ? 1 : 0;
     m.origin = point(c);
     if (r.chance(0.5)) {
-        static const double rots[] = {90, 180, 270, -90, 45, 30, 0.5, 135, 200.25, 359.5, -45};
-        m.rot_deg = rots[r.below(r.chance(0.6) ? 4 : 11)];
+        static const double rots[] = {90, 180, 270, -90, 45, 30, 0.5, 135, 200.25, 359.5, -45, 256, -256, 16};
+        m.rot_deg = rots[r.below(r.chance(0.6) ? 4 : 14)];
     }
     if (r.chance(0.3)) {
-        static const double mags[] = {2, 0.5, 0.25, 1.5, 10, 3.125, 0.1};
-        m.mag = mags[r.below(7)];
+        static const double mags[] = {2, 0.5, 0.25, 1.5, 10, 3.125, 0.1, 16, 256, 4096, 0.0625, 1.0 / 4096, 1.0 / 65536};
+        m.mag = mags[r.below(13)];
     }
     m.xrefl = r.chance(0.3);
     m.rep = repetition(c, true);
@@ -835,9 +851,9 @@ inline model::MLib library(Rng& r, const Cfg& cfg) {
     if (cfg.mode == canon::OAS && r.chance(0.04)) c.span = (dg_t)1 << 38;  // OASIS integers are not limited to 32 bits
     m.name = r.chance(0.5) ? "LIB" : ident(r, 1, 14);
     static const double units[] = {1e-6, 1e-6, 1e-6, 1e-3, 1e-9, 2e-6, 1.0, 2.54e-5};
-    static const double ratios[] = {1000, 1000, 100, 10, 2000, 10000, 1, 400};
+    static const double ratios[] = {1000, 1000, 100, 10, 2000, 10000, 1, 400, 4096, 256, 65536, 16};
     m.unit = units[r.below(8)];
-    m.precision = m.unit / ratios[r.below(8)];
+    m.precision = m.unit / ratios[r.below(r.chance(0.85) ? 8 : 12)];
     int ncell = (int)r.range(1, cfg.max_cells);
     if (r.chance(0.02)) ncell = 0;  // an empty library is a library too
     // many small cells: reference numbers, name tables and cell arrays beyond 127 entries
